@@ -33,4 +33,8 @@ TrapShutdownDuringConnect == ~(\E c \in Conns : pc[M(c)] = "u.connect" /\ pc[D] 
 \* C16: the owner closed the listener itself; Shutdown is called while a handler runs / while the connection is idle
 TrapShutdownAfterOwnerClose == ~(\E c \in Conns : pc[D] = "sd.close" /\ listener = "closed" /\ pc[M(c)] = "u.handler")
 TrapShutdownAfterOwnerCloseIdle == ~(\E c \in Conns : pc[D] = "sd.close" /\ listener = "closed" /\ pc[M(c)] = "recv.select!")
+\* C16: the client has closed its connection while a handler of that connection runs; the read loop is about to notice
+TrapClientGoneDuringHandler == ~(\E c \in Conns : pc[M(c)] = "u.handler" /\ cliClosed[c] /\ pc[R(c)] = "rl.recv")
+\* ... and the read loop has torn the connection down completely while the handler still runs
+TrapTornDownDuringHandler == ~(\E c \in Conns : pc[M(c)] = "u.handler" /\ cliClosed[c] /\ pc[R(c)] \in {"rl.exit", "done"})
 =============================================================================
